@@ -26,7 +26,7 @@ def run(out, tier, seed):
         if clause in ("Internal",):
             seen_real.add(detail)
             out.judge({"clause": "Internal", "why": detail}, {"text": c["text"], "tokens": c["toks"], "outcome": c["out"]})
-        elif clause in ("NotRefused", "WronglyRefused", "InternalAtSelect"):
+        elif clause in ("NotRefused", "WronglyRefused", "InternalAtSelect", "RefusalNotStable"):
             out.judge({"clause": clause, "why": detail if clause == "InternalAtSelect" else c["what"]}, {"selector": c["text"], "outcome": c["outcome"], "what": c["what"]})
     for s in sigs:
         if s not in seen_real:
@@ -55,7 +55,7 @@ def replay(out, path):
     for cid, clause, detail in fails:
         if clause == "Internal":
             out.judge({"clause": "Internal", "why": detail}, {"text": by[cid]["text"]})
-        elif clause in ("NotRefused", "WronglyRefused", "InternalAtSelect"):
+        elif clause in ("NotRefused", "WronglyRefused", "InternalAtSelect", "RefusalNotStable"):
             out.judge({"clause": clause, "why": detail if clause == "InternalAtSelect" else by[cid]["what"]}, {"selector": by[cid]["text"]})
     out.traces += len(cases)
     out.samples.append({"replayed": path})
